@@ -309,3 +309,49 @@ def _first_diff(a, b, path="") -> str:
                 return _first_diff(x, y, f"{path}/{key}")
         return path
     return f"{path}: {str(a)[:60]} -> {str(b)[:60]}"
+
+
+def run_copy_evaluation(ctx: Ctx) -> None:
+    """Evaluating a copy obtained from an accessor (inverse(), .inv, data(p)) leaves the original as it was ("subsequent behaviour")."""
+    from .t67_transforms import LEnv, LINEAR, INVERSE_MODES, _mk_linear, _linear_cls, _change
+    prog = ctx.prog
+    ctx.rule("T15.copy-evaluation", "for every elementary linear model with fixed (buffer) or optimisable (Parameter) parameters: after "
+                                    "c = t.inverse(link, update_buffers) / t.inv, *evaluating* c — update(), tensor(), c(points), checked after every single evaluation — leaves t's "
+                                    "state snapshot, t's matrix and the parameter tensor the user handed to t unchanged (copies share parameter "
+                                    "tensors with the original: an in-place operation on the way to the copy's matrix writes into the original)")
+    for name, dims in LINEAR[:7]:
+        ci = _linear_cls(ctx, name)
+        fm = prog.find_method(ci, "tensor")
+        ctx.fn(fm)
+        D = dims[-1]
+        for kind in ("buffer", "parameter"):
+            def th(name=name, D=D, kind=kind):
+                for link, upd, via in INVERSE_MODES:
+                    env = LEnv(ctx, D, symbolic_grid=False)
+                    it = env.it
+                    t = _mk_linear(env, name, kind)
+                    if kind == "buffer":
+                        env.set_params(t)
+                    else:
+                        _change(env, t, "inplace")
+                    it.method(t, "update")
+                    held = it.method(t, "data")
+                    held0 = held.clone()
+                    M0 = it.method(t, "tensor").clone()
+                    before = snapshot(t)
+                    c = it.getattr(t, "inv") if via == "inv" else it.method(t, "inverse", link=link, update_buffers=upd)
+                    x = STensor.symbols("x", [1, 2, D])
+                    evaluations = [("update()", lambda: it.method(c, "update")), ("tensor()", lambda: it.method(c, "tensor")),
+                                   ("call on points", lambda: it.call_value(c, [x], {})), ("tensor() again", lambda: it.method(c, "tensor"))]
+                    for what, ev in evaluations:  # checked after every single evaluation: two in-place inversions would cancel
+                        ev()
+                        if snapshot(t) != before:
+                            return False, (f"{name} ({kind} parameters): evaluating the inverse (link={link}, update_buffers={upd}, via={via}; "
+                                           f"{what}) changed the original transform: {_first_diff(before, snapshot(t))}")
+                        if not all(to_rat(a).equals(to_rat(b)) for a, b in zip(held.flat(), held0.flat())):
+                            return False, f"{name} ({kind} parameters): evaluating the inverse ({what}) wrote into the original's parameter tensor"
+                    M1 = it.method(t, "tensor")
+                    if not all(to_rat(a).equals(to_rat(b)) for a, b in zip(M1.flat(), M0.flat())):
+                        return False, f"{name} ({kind} parameters): after evaluating its inverse the original's matrix differs"
+                return True, ""
+            _guard(ctx, "T15.copy-evaluation", f"{name}:{kind}", fm, f"class={name} params={kind} evaluate the inverse", th)
